@@ -1,1 +1,1052 @@
-//! C09 harnesses (see /verif/tools/HARNESS_GUIDE.md).
+//! C09 — trusted-length iterators yield exactly as many items as they announce.
+//!
+//! Three observations are made on every iterator the library hands out as `TrustedLen`
+//! (`mk` builds the same iterator again for every observation, parameters are symbolic):
+//!
+//!  * COLLECT — `collect_trusted_to_vec()` (`collect_trusted_vec1::<Vec<_>>()` is the same code):
+//!              the raw `ptr::write`s are seen by Kani's pointer checks; resulting `len == h`.
+//!  * TOTAL   — read `size_hint().1 = h` before consumption, consume by plain safe iteration
+//!              (front with `next`; back with `next_back` where the type is double-ended) and
+//!              assert that exactly `h` items were yielded; shift-like adaptors additionally
+//!              announce the input length.
+//!  * STEPS   — re-read the hint after every `next`/`next_back` (symbolic interleaving where
+//!              double-ended): an item is yielded only while the hint is positive, the hint
+//!              drops by exactly one per yielded item and exhaustion happens exactly at hint 0.
+//!              By induction over the remaining steps this is "remaining == current hint at
+//!              every point of the consumption".
+//!
+//! "Arbitrary chains": every iterator-to-iterator adaptor is also checked over `AbsIter`, an
+//! abstract inner iterator with symbolic remaining length <= 3, nondeterministic items and an exact
+//! hint. An adaptor that maps contract-satisfying iterators to contract-satisfying iterators does
+//! so at every depth of a pipeline.
+//!
+//! Lengths of containers are concrete (`const N`), everything else is `kani::any()`.
+//!
+//! Harness families that fail on the pinned tree are kept apart from the ones that hold:
+//!   `c09_shift_*`            — `MapBasic::shift` has no `len <= |n|` guard (D1)
+//!   `c09_*_steps*` of every adaptor built on `TrustIter` — `TrustIter::size_hint` keeps
+//!                              announcing the initial length after items were taken (D2);
+//!                              `c09_trustiter_steps` is the root-cause harness.
+use std::collections::VecDeque;
+use std::marker::PhantomData;
+use std::mem::MaybeUninit;
+use std::sync::Arc;
+
+use ndarray::{Array1, ArrayView1, s};
+use tea_core::prelude::*;
+use tea_map::{MapBasic, MapValidBasic, MapValidVec};
+
+use crate::util::*;
+
+// ---------------------------------------------------------------------------------------------
+// abstract inner iterator
+// ---------------------------------------------------------------------------------------------
+
+/// Contract-satisfying iterator about which nothing else is known: `rem` items remain, each item
+/// is produced by `g` (a `kani::any()` generator, possibly constrained to the documented domain
+/// of the adaptor under test), the hint is exact, both ends can be consumed.
+pub struct AbsIter<T, G: Fn() -> T> {
+    pub rem: usize,
+    pub g: G,
+}
+
+impl<T, G: Fn() -> T> AbsIter<T, G> {
+    pub fn with_len(rem: usize, g: G) -> Self {
+        AbsIter { rem, g }
+    }
+}
+
+impl<T, G: Fn() -> T> Iterator for AbsIter<T, G> {
+    type Item = T;
+    fn next(&mut self) -> Option<T> {
+        if self.rem == 0 {
+            None
+        } else {
+            self.rem -= 1;
+            Some((self.g)())
+        }
+    }
+    fn size_hint(&self) -> (usize, Option<usize>) {
+        (self.rem, Some(self.rem))
+    }
+}
+
+impl<T, G: Fn() -> T> DoubleEndedIterator for AbsIter<T, G> {
+    fn next_back(&mut self) -> Option<T> {
+        if self.rem == 0 {
+            None
+        } else {
+            self.rem -= 1;
+            Some((self.g)())
+        }
+    }
+}
+
+unsafe impl<T, G: Fn() -> T> TrustedLen for AbsIter<T, G> {}
+
+/// symbolic remaining length of the abstract inner iterator
+pub fn any_rem(max: usize) -> usize {
+    let rem: usize = kani::any();
+    kani::assume(rem <= max);
+    rem
+}
+pub fn any_i32() -> i32 {
+    kani::any()
+}
+pub fn any_opt() -> Option<i32> {
+    kani::any()
+}
+/// i32 without the type minimum (`abs(i32::MIN)` is undefined in the language, DESIGN 5.6)
+pub fn nonmin_i32() -> i32 {
+    let v: i32 = kani::any();
+    kani::assume(v != i32::MIN);
+    v
+}
+pub fn nonmin_opt() -> Option<i32> {
+    let v: Option<i32> = kani::any();
+    kani::assume(v != Some(i32::MIN));
+    v
+}
+pub fn small() -> i32 {
+    small_i32(-100, 100)
+}
+
+// ---------------------------------------------------------------------------------------------
+// observations
+// ---------------------------------------------------------------------------------------------
+
+/// upper bound of the current hint; a trusted-length iterator must announce one
+pub fn hint<I: Iterator + ?Sized>(it: &I) -> usize {
+    match it.size_hint().1 {
+        Some(h) => h,
+        None => {
+            assert!(false, "trusted-length iterator announces an upper bound");
+            0
+        },
+    }
+}
+
+/// consume from the front by plain iteration; `cap` bounds the harness loop (an over-yielding
+/// iterator is stopped after cap+1 items, which is more than any honest hint in the harness).
+pub fn total_front<I: Iterator>(mut it: I, cap: usize) -> usize {
+    let h = hint(&it);
+    assert!(h <= cap, "announced length is within the range expected for the parameters");
+    let mut c = 0usize;
+    while c <= cap {
+        if it.next().is_none() {
+            break;
+        }
+        c += 1;
+    }
+    assert!(c == h, "front iteration yields exactly the announced number of items");
+    h
+}
+
+pub fn total_back<I: DoubleEndedIterator>(mut it: I, cap: usize) -> usize {
+    let h = hint(&it);
+    assert!(h <= cap, "announced length is within the range expected for the parameters");
+    let mut c = 0usize;
+    while c <= cap {
+        if it.next_back().is_none() {
+            break;
+        }
+        c += 1;
+    }
+    assert!(c == h, "back iteration yields exactly the announced number of items");
+    h
+}
+
+/// trusted collection: Kani's pointer checks watch the raw writes; length == announced
+pub fn collect_len<I: TrustedLen>(it: I) -> usize {
+    let h = hint(&it);
+    let v: Vec<I::Item> = it.collect_trusted_to_vec();
+    assert!(v.len() == h, "collect_trusted_to_vec returns the announced length");
+    h
+}
+
+/// hint re-read after every step, front only
+pub fn steps_front<I: Iterator>(mut it: I, cap: usize) {
+    let mut h = hint(&it);
+    let mut k = 0usize;
+    while k <= cap {
+        match it.next() {
+            Some(_) => {
+                assert!(h >= 1, "an item is yielded only while the current hint is positive");
+                let h2 = hint(&it);
+                assert!(h2 + 1 == h, "the hint drops by exactly one with every yielded item");
+                h = h2;
+            },
+            None => {
+                assert!(h == 0, "the iterator is exhausted only when its current hint is zero");
+                break;
+            },
+        }
+        k += 1;
+    }
+}
+
+/// hint re-read after every step of a symbolic interleaving of `next` and `next_back`;
+/// returns true when both ends were used
+pub fn steps_both<I: DoubleEndedIterator>(mut it: I, cap: usize) -> bool {
+    let mut h = hint(&it);
+    let mut k = 0usize;
+    let mut mixed = (false, false);
+    while k <= cap {
+        let back: bool = kani::any();
+        let r = if back { it.next_back() } else { it.next() };
+        match r {
+            Some(_) => {
+                assert!(h >= 1, "an item is yielded only while the current hint is positive");
+                let h2 = hint(&it);
+                assert!(h2 + 1 == h, "the hint drops by exactly one with every yielded item");
+                h = h2;
+                if back {
+                    mixed.1 = true
+                } else {
+                    mixed.0 = true
+                }
+            },
+            None => {
+                assert!(h == 0, "the iterator is exhausted only when its current hint is zero");
+                break;
+            },
+        }
+        k += 1;
+    }
+    mixed.0 && mixed.1
+}
+
+pub const COLLECT: u8 = 1;
+pub const TOTAL: u8 = 2;
+pub const STEPS: u8 = 4;
+pub const ALL: u8 = 7;
+
+fn same_len(h: usize, want: Option<usize>) {
+    if let Some(w) = want {
+        assert!(h == w, "announced length equals the input length");
+    }
+}
+
+/// the selected observations (`p` is a constant at every call site), each on a fresh iterator.
+/// COLLECT runs first so that an out-of-bounds write is reported even where TOTAL fails.
+pub fn observe<I: TrustedLen, F: Fn() -> I>(p: u8, mk: F, cap: usize, want: Option<usize>) {
+    if p & COLLECT != 0 {
+        same_len(collect_len(mk()), want);
+    }
+    if p & TOTAL != 0 {
+        same_len(total_front(mk(), cap), want);
+    }
+    if p & STEPS != 0 {
+        steps_front(mk(), cap);
+    }
+}
+
+/// all observations for a double-ended iterator (container iterators, mapped views)
+pub fn observe_de<I: TIterator, F: Fn() -> I>(mk: F, cap: usize, want: Option<usize>) -> bool {
+    same_len(collect_len(mk()), want);
+    same_len(total_front(mk(), cap), want);
+    total_back(mk(), cap);
+    steps_both(mk(), cap)
+}
+
+/// `#[kani::proof]` wrapper: `$call` returns the vacuity witness of the instance.
+macro_rules! h {
+    ($(#[$m:meta])* $name:ident, $unwind:literal, $call:expr) => {
+        $(#[$m])*
+        #[kani::proof]
+        #[kani::unwind($unwind)]
+        pub fn $name() {
+            let w: bool = $call;
+            kani::cover!(w, "interesting region of the parameter space reached and passed");
+        }
+    };
+}
+
+// ---------------------------------------------------------------------------------------------
+// 1. container iterators
+// ---------------------------------------------------------------------------------------------
+
+pub fn titer_vec<const N: usize>() -> bool {
+    let x: [i32; N] = kani::any();
+    let v: Vec<i32> = x.to_vec();
+    let w = observe_de(|| v.titer(), N + 1, Some(N));
+    observe_de(|| x.titer(), N + 1, Some(N));
+    let sl: &[i32] = &x[..];
+    observe_de(|| sl.titer(), N + 1, Some(N));
+    w
+}
+
+pub fn titer_into<const N: usize>() -> bool {
+    let x: [i32; N] = kani::any();
+    let v: Vec<i32> = x.to_vec();
+    let w = observe_de(|| v.clone().into_titer(), N + 1, Some(N));
+    let h = hint(&v.titer());
+    let c: Vec<i32> = v.titer().collect_trusted_vec1();
+    assert!(c.len() == h, "collect_trusted_vec1 returns the announced length");
+    w
+}
+
+pub fn titer_arc<const N: usize>() -> bool {
+    let x: [i32; N] = kani::any();
+    let v = Arc::new(x.to_vec());
+    observe_de(|| v.titer(), N + 1, Some(N))
+}
+
+pub fn titer_deque<const N: usize>() -> bool {
+    let x: [i32; N] = kani::any();
+    let rot: usize = kani::any();
+    kani::assume(rot <= N);
+    let v = deque_rot(&x[..], rot);
+    kani::cover!(rot > 0 || N == 0, "ring buffer rotated");
+    observe_de(|| v.titer(), N + 1, Some(N))
+}
+
+pub fn titer_nd<const N: usize>() -> bool {
+    let x: [i32; N] = kani::any();
+    let a = nd_owned(&x[..]);
+    let w = observe_de(|| a.titer(), N + 1, Some(N));
+    let view = a.view();
+    observe_de(|| view.titer(), N + 1, Some(N));
+    w
+}
+
+pub fn titer_nd_rev<const N: usize>() -> bool {
+    let x: [i32; N] = kani::any();
+    let st = nd_rev_storage(&x[..]);
+    let rv = st.slice(s![..;-1]);
+    observe_de(|| rv.titer(), N + 1, Some(N))
+}
+
+pub fn titer_nd_step<const N: usize>() -> bool {
+    let x: [i32; N] = kani::any();
+    let st2 = nd_step_storage(&x[..], 2);
+    let sv = st2.slice(s![..;2]);
+    observe_de(|| sv.titer(), N + 1, Some(N))
+}
+
+pub fn titer_opt<const N: usize>() -> bool {
+    let x: [Option<i32>; N] = kani::any();
+    let v: Vec<Option<i32>> = x.to_vec();
+    let o = v.opt();
+    let w = observe_de(|| o.titer(), N + 1, Some(N));
+    observe(ALL, || (&o).into_iter(), N + 1, Some(N));
+    w
+}
+
+/// the mapped views of Vec1View / TIter (`titer().map(..)`)
+pub fn titer_mapped<const N: usize>() -> bool {
+    let x: [Option<i32>; N] = kani::any();
+    let v: Vec<Option<i32>> = x.to_vec();
+    let w = observe_de(|| v.to_opt_iter(), N + 1, Some(N));
+    observe_de(|| v.opt_iter_cast::<i64>(), N + 1, Some(N));
+    observe_de(|| TIter::map(&v, |e| e.is_some()), N + 1, Some(N));
+    let y: [i32; N] = kani::any();
+    observe_de(|| y.iter_cast::<i64>(), N + 1, Some(N));
+    w
+}
+
+h!(c09_titer_vec_n0, 6, {
+    titer_vec::<0>();
+    titer_into::<0>();
+    titer_arc::<0>();
+    titer_opt::<0>();
+    true
+});
+h!(c09_titer_vec_n1, 6, {
+    titer_vec::<1>();
+    titer_into::<1>();
+    true
+});
+h!(c09_titer_vec_n3, 8, titer_vec::<3>());
+h!(c09_titer_into_n3, 8, titer_into::<3>());
+h!(c09_titer_arc_n3, 8, titer_arc::<3>());
+h!(c09_titer_deque_n3, 8, titer_deque::<3>());
+h!(c09_titer_nd_n0, 6, {
+    titer_nd::<0>();
+    titer_deque::<0>();
+    true
+});
+h!(c09_titer_nd_n3, 8, titer_nd::<3>());
+h!(c09_titer_ndrev_n3, 8, titer_nd_rev::<3>());
+h!(c09_titer_ndstep_n3, 8, titer_nd_step::<3>());
+h!(c09_titer_opt_n3, 8, titer_opt::<3>());
+h!(c09_titer_mapped_n2, 7, titer_mapped::<2>());
+
+h!(#[cfg(feature = "thorough")] c09_titer_vec_n4, 9, titer_vec::<4>());
+h!(#[cfg(feature = "thorough")] c09_titer_deque_n4, 9, titer_deque::<4>());
+h!(#[cfg(feature = "thorough")] c09_titer_nd_n4, 9, titer_nd::<4>());
+h!(#[cfg(feature = "thorough")] c09_titer_ndrev_n4, 9, titer_nd_rev::<4>());
+h!(#[cfg(feature = "thorough")] c09_titer_ndstep_n4, 9, titer_nd_step::<4>());
+h!(#[cfg(feature = "thorough")] c09_titer_opt_n4, 9, titer_opt::<4>());
+h!(#[cfg(feature = "thorough")] c09_titer_mapped_n4, 9, titer_mapped::<4>());
+
+// ---------------------------------------------------------------------------------------------
+// 2. TrustIter itself (root of every `to_trust(len)` adaptor)
+// ---------------------------------------------------------------------------------------------
+
+/// `to_trust(len)` around an iterator that really has `len` items: totals and collection.
+pub fn trustiter_total() -> bool {
+    let len = any_rem(3);
+    observe(COLLECT | TOTAL, || (0..len).to_trust(len), 4, Some(len));
+    total_back((0..len).to_trust(len), 4);
+    len == 3
+}
+
+/// ... and the hint after partial consumption (D2).
+pub fn trustiter_steps() -> bool {
+    let len = any_rem(3);
+    steps_both((0..len).to_trust(len), 4)
+}
+
+h!(c09_trustiter_total, 7, trustiter_total());
+h!(c09_trustiter_steps, 7, trustiter_steps());
+
+// ---------------------------------------------------------------------------------------------
+// 3. MapBasic::shift (unguarded), lag in -len-3..=len+3
+// ---------------------------------------------------------------------------------------------
+
+/// `within`: only lags with |n| <= len (where D1 does not strike)
+pub fn shift_params(len: usize, within: bool) -> (i32, i32, bool) {
+    let n = small_i32(-(len as i32) - 3, len as i32 + 3);
+    let fill: i32 = kani::any();
+    let na = n.unsigned_abs() as usize;
+    if within {
+        kani::assume(na <= len);
+    } else {
+        kani::cover!(na > len && n < 0, "n < -len");
+        kani::cover!(na > len && n > 0, "n > len");
+    }
+    kani::cover!(n == 0, "n == 0");
+    (n, fill, if len >= 2 { na > 0 && na < len } else { na >= len })
+}
+
+pub fn shift_vec<const N: usize>(p: u8, within: bool) -> bool {
+    let x: [i32; N] = kani::any();
+    let (n, fill, w) = shift_params(N, within);
+    observe(p, || x.titer().shift(n, fill), N + 1, Some(N));
+    w
+}
+
+pub fn shift_abs(p: u8, within: bool) -> bool {
+    let rem = any_rem(3);
+    let (n, fill, w) = shift_params(rem, within);
+    observe(p, || AbsIter::with_len(rem, any_i32).shift(n, fill), 4, Some(rem));
+    w
+}
+
+// D1: expected to fail on the pinned tree (n < -len over-yields, n > len underflows `len - n_abs`)
+h!(c09_shift_total_vec_n0, 7, shift_vec::<0>(TOTAL, false));
+h!(c09_shift_total_vec_n2, 9, shift_vec::<2>(TOTAL, false));
+h!(c09_shift_collect_vec_n1, 8, shift_vec::<1>(COLLECT, false));
+// the in-range lags on their own: hold
+h!(c09_shift_within_vec_n3, 8, shift_vec::<3>(COLLECT | TOTAL, true));
+// D2 through shift
+h!(c09_shift_steps_vec_n2, 7, shift_vec::<2>(STEPS, true));
+
+h!(#[cfg(feature = "thorough")] c09_shift_total_vec_n1, 8, shift_vec::<1>(COLLECT | TOTAL, false));
+h!(#[cfg(feature = "thorough")] c09_shift_total_vec_n3, 10, shift_vec::<3>(COLLECT | TOTAL, false));
+h!(#[cfg(feature = "thorough")] c09_shift_total_vec_n4, 11, shift_vec::<4>(COLLECT | TOTAL, false));
+h!(#[cfg(feature = "thorough")] c09_shift_total_abs, 10, shift_abs(COLLECT | TOTAL, false));
+h!(#[cfg(feature = "thorough")] c09_shift_within_abs, 8, shift_abs(COLLECT | TOTAL, true));
+h!(#[cfg(feature = "thorough")] c09_shift_steps_abs, 8, shift_abs(STEPS, true));
+
+// ---------------------------------------------------------------------------------------------
+// 4. vshift (guarded), lag over the full i32 range
+// ---------------------------------------------------------------------------------------------
+
+pub fn lag_params(len: usize) -> (i32, bool) {
+    let n: i32 = kani::any();
+    kani::cover!(n == i32::MIN, "lag i32::MIN");
+    kani::cover!(n == i32::MAX, "lag i32::MAX");
+    kani::cover!(n.unsigned_abs() as usize > len, "|n| > len");
+    kani::cover!(n == 0, "n == 0");
+    let na = n.unsigned_abs() as usize;
+    (n, if len >= 2 { na > 0 && na < len } else { na >= len })
+}
+
+pub fn vshift_vec<const N: usize>(p: u8) -> bool {
+    let x: [Option<i32>; N] = kani::any();
+    let (n, w) = lag_params(N);
+    let fill: Option<Option<i32>> = kani::any();
+    observe(p, || x.titer().vshift(n, fill), N + 1, Some(N));
+    w
+}
+
+pub fn vshift_abs(p: u8) -> bool {
+    let rem = any_rem(3);
+    let (n, w) = lag_params(rem);
+    let fill: Option<Option<i32>> = kani::any();
+    observe(p, || AbsIter::with_len(rem, any_opt).vshift(n, fill), 4, Some(rem));
+    w
+}
+
+h!(c09_vshift_total_vec_n012, 7, {
+    vshift_vec::<0>(COLLECT | TOTAL);
+    vshift_vec::<1>(TOTAL);
+    vshift_vec::<2>(TOTAL)
+});
+h!(c09_vshift_total_vec_n3, 8, vshift_vec::<3>(TOTAL));
+h!(c09_vshift_collect_vec_n2, 7, vshift_vec::<2>(COLLECT));
+h!(c09_vshift_total_abs, 8, vshift_abs(TOTAL));
+h!(c09_vshift_steps_vec_n2, 7, vshift_vec::<2>(STEPS));
+
+h!(#[cfg(feature = "thorough")] c09_vshift_total_vec_n4, 9, vshift_vec::<4>(TOTAL));
+h!(#[cfg(feature = "thorough")] c09_vshift_collect_vec_n3, 8, vshift_vec::<3>(COLLECT));
+h!(#[cfg(feature = "thorough")] c09_vshift_collect_vec_n4, 9, vshift_vec::<4>(COLLECT));
+h!(#[cfg(feature = "thorough")] c09_vshift_collect_abs, 8, vshift_abs(COLLECT));
+h!(#[cfg(feature = "thorough")] c09_vshift_steps_abs, 8, vshift_abs(STEPS));
+
+// ---------------------------------------------------------------------------------------------
+// 5. vdiff / vpct_change (views), lag over the full i32 range
+// ---------------------------------------------------------------------------------------------
+
+pub fn small_arr<const N: usize>() -> [i32; N] {
+    let x: [i32; N] = kani::any();
+    let mut i = 0;
+    while i < N {
+        kani::assume(x[i] >= -100 && x[i] <= 100);
+        i += 1;
+    }
+    x
+}
+
+/// i32 elements in -100..=100 (the subtraction cannot overflow), non-null fill
+pub fn vdiff_vec<const N: usize>(p: u8) -> bool {
+    let x: [i32; N] = small_arr();
+    let (n, w) = lag_params(N);
+    let fill = small();
+    observe(p, || x.vdiff(n, Some(fill)), N + 1, Some(N));
+    w
+}
+
+pub fn vpct_vec<const N: usize>(p: u8) -> bool {
+    let x: [i32; N] = small_arr();
+    let (n, w) = lag_params(N);
+    observe(p, || x.vpct_change(n), N + 1, Some(N));
+    w
+}
+
+h!(c09_vdiff_total_vec_n012, 7, {
+    vdiff_vec::<0>(COLLECT | TOTAL);
+    vdiff_vec::<1>(TOTAL);
+    vdiff_vec::<2>(TOTAL)
+});
+h!(c09_vdiff_total_vec_n3, 8, vdiff_vec::<3>(TOTAL));
+h!(c09_vdiff_collect_vec_n2, 7, vdiff_vec::<2>(COLLECT));
+h!(c09_vdiff_steps_vec_n2, 7, vdiff_vec::<2>(STEPS));
+h!(c09_vpct_total_vec_n012, 7, {
+    vpct_vec::<0>(COLLECT | TOTAL);
+    vpct_vec::<1>(TOTAL);
+    vpct_vec::<2>(TOTAL)
+});
+h!(c09_vpct_total_vec_n3, 8, vpct_vec::<3>(TOTAL));
+h!(c09_vpct_collect_vec_n2, 7, vpct_vec::<2>(COLLECT));
+h!(c09_vpct_steps_vec_n2, 7, vpct_vec::<2>(STEPS));
+
+h!(#[cfg(feature = "thorough")] c09_vdiff_total_vec_n4, 9, vdiff_vec::<4>(TOTAL));
+h!(#[cfg(feature = "thorough")] c09_vdiff_collect_vec_n3, 8, vdiff_vec::<3>(COLLECT));
+h!(#[cfg(feature = "thorough")] c09_vpct_total_vec_n4, 9, vpct_vec::<4>(TOTAL));
+h!(#[cfg(feature = "thorough")] c09_vpct_collect_vec_n3, 8, vpct_vec::<3>(COLLECT));
+
+// ---------------------------------------------------------------------------------------------
+// 6. map-based adaptors: abs/vabs, ffill(_mask), bfill(_mask), fill(_mask), vclip
+//    (all three observations; concrete array input and abstract inner iterator)
+// ---------------------------------------------------------------------------------------------
+
+pub fn nonmin_arr<const N: usize>() -> [i32; N] {
+    let x: [i32; N] = kani::any();
+    let mut i = 0;
+    while i < N {
+        kani::assume(x[i] != i32::MIN);
+        i += 1;
+    }
+    x
+}
+
+pub fn abs_vec<const N: usize>() -> bool {
+    let x: [i32; N] = nonmin_arr();
+    observe(ALL, || x.titer().abs(), N + 1, Some(N));
+    let y: [Option<i32>; N] = kani::any();
+    let mut i = 0;
+    while i < N {
+        kani::assume(y[i] != Some(i32::MIN));
+        i += 1;
+    }
+    observe(ALL, || y.titer().vabs(), N + 1, Some(N));
+    true
+}
+
+pub fn abs_abs() -> bool {
+    let rem = any_rem(3);
+    observe(ALL, || AbsIter::with_len(rem, nonmin_i32).abs(), 4, Some(rem));
+    observe(ALL, || AbsIter::with_len(rem, nonmin_opt).vabs(), 4, Some(rem));
+    rem == 3
+}
+
+pub fn ffill_vec<const N: usize>() -> bool {
+    let x: [Option<i32>; N] = kani::any();
+    let d: Option<Option<i32>> = kani::any();
+    let k: Option<i32> = kani::any();
+    observe(ALL, || x.titer().ffill(d), N + 1, Some(N));
+    observe(ALL, || x.titer().ffill_mask(move |e: &Option<i32>| *e == k, d), N + 1, Some(N));
+    true
+}
+
+pub fn ffill_abs() -> bool {
+    let rem = any_rem(3);
+    let d: Option<Option<i32>> = kani::any();
+    let k: Option<i32> = kani::any();
+    observe(ALL, || AbsIter::with_len(rem, any_opt).ffill(d), 4, Some(rem));
+    observe(ALL, || AbsIter::with_len(rem, any_opt).ffill_mask(move |e: &Option<i32>| *e == k, d), 4, Some(rem));
+    rem == 3
+}
+
+pub fn bfill_vec<const N: usize>() -> bool {
+    let x: [Option<i32>; N] = kani::any();
+    let d: Option<Option<i32>> = kani::any();
+    let k: Option<i32> = kani::any();
+    observe(ALL, || x.titer().bfill(d), N + 1, Some(N));
+    observe(ALL, || x.titer().bfill_mask(move |e: &Option<i32>| *e == k, d), N + 1, Some(N));
+    true
+}
+
+pub fn bfill_abs() -> bool {
+    let rem = any_rem(3);
+    let d: Option<Option<i32>> = kani::any();
+    let k: Option<i32> = kani::any();
+    observe(ALL, || AbsIter::with_len(rem, any_opt).bfill(d), 4, Some(rem));
+    observe(ALL, || AbsIter::with_len(rem, any_opt).bfill_mask(move |e: &Option<i32>| *e == k, d), 4, Some(rem));
+    rem == 3
+}
+
+pub fn fill_vec<const N: usize>() -> bool {
+    let x: [Option<i32>; N] = kani::any();
+    let d: Option<i32> = kani::any();
+    let k: Option<i32> = kani::any();
+    observe(ALL, || x.titer().fill(d), N + 1, Some(N));
+    observe(ALL, || x.titer().fill_mask(move |e: &Option<i32>| *e == k, d), N + 1, Some(N));
+    true
+}
+
+pub fn fill_abs() -> bool {
+    let rem = any_rem(3);
+    let d: Option<i32> = kani::any();
+    let k: Option<i32> = kani::any();
+    observe(ALL, || AbsIter::with_len(rem, any_opt).fill(d), 4, Some(rem));
+    observe(ALL, || AbsIter::with_len(rem, any_opt).fill_mask(move |e: &Option<i32>| *e == k, d), 4, Some(rem));
+    rem == 3
+}
+
+pub fn vclip_vec<const N: usize>() -> bool {
+    let x: [Option<i32>; N] = kani::any();
+    let lo: Option<i32> = kani::any();
+    let hi: Option<i32> = kani::any();
+    kani::cover!(lo.is_none() && hi.is_none(), "no bounds");
+    kani::cover!(lo.is_some() && hi.is_none(), "lower bound only");
+    kani::cover!(lo.is_none() && hi.is_some(), "upper bound only");
+    kani::cover!(lo.is_some() && hi.is_some(), "both bounds");
+    observe(ALL, || x.titer().vclip(lo, hi), N + 1, Some(N));
+    true
+}
+
+pub fn vclip_abs() -> bool {
+    let rem = any_rem(3);
+    let lo: Option<i32> = kani::any();
+    let hi: Option<i32> = kani::any();
+    observe(ALL, || AbsIter::with_len(rem, any_opt).vclip(lo, hi), 4, Some(rem));
+    rem == 3
+}
+
+/// the tail of `winsorize`: `iter_cast::<f64>().vclip(min, max)` with arbitrary (also NaN) bounds
+pub fn winsor_tail<const N: usize>() -> bool {
+    let x: [i32; N] = kani::any();
+    let lo: f64 = kani::any();
+    let hi: f64 = kani::any();
+    kani::cover!(lo.is_nan() && !hi.is_nan(), "lower bound null");
+    observe(ALL, || x.iter_cast::<f64>().vclip(lo, hi), N + 1, Some(N));
+    true
+}
+
+h!(c09_abs_vec_n03, 8, {
+    abs_vec::<0>();
+    abs_vec::<3>()
+});
+h!(c09_abs_abs, 8, abs_abs());
+h!(c09_ffill_vec_n03, 8, {
+    ffill_vec::<0>();
+    ffill_vec::<3>()
+});
+h!(c09_ffill_abs, 8, ffill_abs());
+h!(c09_bfill_vec_n03, 8, {
+    bfill_vec::<0>();
+    bfill_vec::<3>()
+});
+h!(c09_bfill_abs, 8, bfill_abs());
+h!(c09_fill_vec_n03, 8, {
+    fill_vec::<0>();
+    fill_vec::<3>()
+});
+h!(c09_fill_abs, 8, fill_abs());
+h!(c09_vclip_vec_n03, 8, {
+    vclip_vec::<0>();
+    vclip_vec::<3>()
+});
+h!(c09_vclip_abs, 8, vclip_abs());
+h!(c09_winsor_tail_n2, 7, winsor_tail::<2>());
+
+h!(#[cfg(feature = "thorough")] c09_abs_vec_n4, 9, abs_vec::<4>());
+h!(#[cfg(feature = "thorough")] c09_ffill_vec_n4, 9, ffill_vec::<4>());
+h!(#[cfg(feature = "thorough")] c09_bfill_vec_n4, 9, bfill_vec::<4>());
+h!(#[cfg(feature = "thorough")] c09_fill_vec_n4, 9, fill_vec::<4>());
+h!(#[cfg(feature = "thorough")] c09_vclip_vec_n4, 9, vclip_vec::<4>());
+
+// ---------------------------------------------------------------------------------------------
+// 7. vcut (1-2 values, 2 edges; label count right or wrong)
+// ---------------------------------------------------------------------------------------------
+
+pub fn vcut_vec<const N: usize, const L: usize>() -> bool {
+    let x: [i32; N] = kani::any();
+    let bins: Vec<i32> = kani::any::<[i32; 2]>().to_vec();
+    let labels: Vec<i32> = kani::any::<[i32; L]>().to_vec();
+    let right: bool = kani::any();
+    let add_bounds: bool = kani::any();
+    let fits = if add_bounds { L == 3 } else { L == 1 };
+    let ok = x.titer().vcut(&bins, &labels, right, add_bounds).is_ok();
+    assert!(ok == fits, "vcut accepts exactly the matching number of labels");
+    if ok {
+        observe(
+            ALL,
+            || match x.titer().vcut(&bins, &labels, right, add_bounds) {
+                Ok(it) => it,
+                Err(_) => unreachable!(),
+            },
+            N + 1,
+            Some(N),
+        );
+    }
+    ok
+}
+
+h!(#[kani::stub(std::fmt::format, crate::util::fmt_stub)] c09_vcut_n1_l1, 7, vcut_vec::<1, 1>());
+h!(#[kani::stub(std::fmt::format, crate::util::fmt_stub)] c09_vcut_n1_l3, 7, vcut_vec::<1, 3>());
+h!(#[cfg(feature = "thorough")] #[kani::stub(std::fmt::format, crate::util::fmt_stub)] c09_vcut_n2_l3, 8, vcut_vec::<2, 3>());
+h!(#[cfg(feature = "thorough")] #[kani::stub(std::fmt::format, crate::util::fmt_stub)] c09_vcut_n2_l1, 8, vcut_vec::<2, 1>());
+h!(#[cfg(feature = "thorough")] #[kani::stub(std::fmt::format, crate::util::fmt_stub)] c09_vcut_n0_l3, 7, vcut_vec::<0, 3>());
+
+// ---------------------------------------------------------------------------------------------
+// 8. vpartition / varg_partition: kth in 0..=N+2, sort and rev symbolic
+// ---------------------------------------------------------------------------------------------
+
+pub fn part_params(len: usize) -> (usize, bool, bool, bool) {
+    let kth: usize = kani::any();
+    kani::assume(kth <= len + 2);
+    let sort: bool = kani::any();
+    let rev: bool = kani::any();
+    kani::cover!(kth + 1 > len, "kth + 1 > len");
+    (kth, sort, rev, if len >= 2 { kth + 1 < len } else { kth + 1 > len })
+}
+
+pub fn part_vec<const N: usize>(p: u8) -> bool {
+    let x: [Option<i32>; N] = kani::any();
+    let (kth, sort, rev, w) = part_params(N);
+    observe(p, || x.vpartition(kth, sort, rev), N + 3, None);
+    w
+}
+
+pub fn argpart_vec<const N: usize>(p: u8) -> bool {
+    let x: [Option<i32>; N] = kani::any();
+    let (kth, sort, rev, w) = part_params(N);
+    observe(p, || x.varg_partition(kth, sort, rev), N + 3, None);
+    w
+}
+
+h!(c09_vpartition_total_n01, 7, {
+    part_vec::<0>(COLLECT | TOTAL);
+    part_vec::<1>(COLLECT | TOTAL)
+});
+h!(c09_vpartition_total_n2, 8, part_vec::<2>(COLLECT | TOTAL));
+h!(c09_vpartition_total_n3, 9, part_vec::<3>(TOTAL));
+h!(c09_vpartition_steps_n2, 8, part_vec::<2>(STEPS));
+h!(c09_vargpartition_total_n01, 7, {
+    argpart_vec::<0>(COLLECT | TOTAL);
+    argpart_vec::<1>(COLLECT | TOTAL)
+});
+h!(c09_vargpartition_total_n2, 8, argpart_vec::<2>(COLLECT | TOTAL));
+h!(c09_vargpartition_total_n3, 9, argpart_vec::<3>(TOTAL));
+h!(c09_vargpartition_steps_n2, 8, argpart_vec::<2>(STEPS));
+
+h!(#[cfg(feature = "thorough")] c09_vpartition_collect_n3, 9, part_vec::<3>(COLLECT));
+h!(#[cfg(feature = "thorough")] c09_vargpartition_collect_n3, 9, argpart_vec::<3>(COLLECT));
+h!(#[cfg(feature = "thorough")] c09_vpartition_total_n4, 10, part_vec::<4>(TOTAL));
+h!(#[cfg(feature = "thorough")] c09_vargpartition_total_n4, 10, argpart_vec::<4>(TOTAL));
+
+// ---------------------------------------------------------------------------------------------
+// 9. rolling_custom_iter: window in 1..=N+2
+// ---------------------------------------------------------------------------------------------
+
+pub fn win_param(len: usize) -> (usize, bool) {
+    let w: usize = kani::any();
+    kani::assume(w >= 1 && w <= len + 2);
+    kani::cover!(w > len, "window > len");
+    (w, if len >= 2 { w > 1 && w < len } else { w > len })
+}
+
+pub fn rolling_vec<const N: usize>(p: u8) -> bool {
+    let x: [i32; N] = kani::any();
+    let v = x.to_vec();
+    let (w, wit) = win_param(N);
+    observe(p, || v.rolling_custom_iter(w, |s: &[i32]| s.len()), N + 1, Some(N));
+    wit
+}
+
+pub fn rolling_deque<const N: usize>(p: u8) -> bool {
+    let x: [i32; N] = kani::any();
+    let v = deque_rot(&x[..], 1);
+    let (w, wit) = win_param(N);
+    observe(p, || v.rolling_custom_iter(w, |s| ExactSizeIterator::len(&s)), N + 1, Some(N));
+    wit
+}
+
+pub fn rolling_nd<const N: usize>(p: u8) -> bool {
+    let x: [i32; N] = kani::any();
+    let v = nd_owned(&x[..]);
+    let (w, wit) = win_param(N);
+    observe(p, || v.rolling_custom_iter(w, |s: ArrayView1<'_, i32>| s.len()), N + 1, Some(N));
+    wit
+}
+
+h!(c09_rolling_total_vec_n03, 8, {
+    rolling_vec::<0>(COLLECT | TOTAL);
+    rolling_vec::<3>(COLLECT | TOTAL)
+});
+h!(c09_rolling_steps_vec_n2, 7, rolling_vec::<2>(STEPS));
+h!(#[cfg(feature = "thorough")] c09_rolling_total_vec_n4, 9, rolling_vec::<4>(COLLECT | TOTAL));
+h!(#[cfg(feature = "thorough")] c09_rolling_total_deque_n2, 7, rolling_deque::<2>(COLLECT | TOTAL));
+h!(#[cfg(feature = "thorough")] c09_rolling_total_nd_n2, 7, rolling_nd::<2>(COLLECT | TOTAL));
+
+// ---------------------------------------------------------------------------------------------
+// 10. range / linspace generators. `tea_core::linspace` is a private module: the `Linspace`
+//     iterator is reached through `Vec1Create::{range, linspace}` of a probing container whose
+//     `collect_from_trusted` performs the TOTAL and STEPS observations on the iterator it is
+//     handed; the Vec container performs the COLLECT observation.
+// ---------------------------------------------------------------------------------------------
+
+pub struct Probe<T> {
+    pub h0: usize,
+    pub count: usize,
+    pub trusted: bool,
+    _p: PhantomData<T>,
+}
+
+pub const PROBE_CAP: usize = 7;
+
+impl<T> GetLen for Probe<T> {
+    fn len(&self) -> usize {
+        self.count
+    }
+}
+
+impl<T: Clone> TIter<T> for Probe<T> {
+    fn titer(&self) -> impl TIterator<Item = T> + '_ {
+        std::iter::empty()
+    }
+}
+
+impl<T: Clone> Vec1View<T> for Probe<T> {
+    type SliceOutput<'a>
+        = &'a [T]
+    where
+        Self: 'a;
+
+    fn get_backend_name(&self) -> &'static str {
+        "probe"
+    }
+
+    fn slice<'a>(&'a self, _start: usize, _end: usize) -> TResult<Self::SliceOutput<'a>>
+    where
+        T: 'a,
+    {
+        Ok(&[])
+    }
+
+    unsafe fn uget(&self, _index: usize) -> T {
+        unreachable!()
+    }
+}
+
+pub struct ProbeUninit<T>(PhantomData<T>);
+
+impl<T> GetLen for ProbeUninit<T> {
+    fn len(&self) -> usize {
+        0
+    }
+}
+
+impl<T: Clone> UninitVec<T> for ProbeUninit<T> {
+    type Vec = Probe<T>;
+    unsafe fn assume_init(self) -> Probe<T> {
+        unreachable!()
+    }
+}
+
+impl<T: Clone> Vec1<T> for Probe<T> {
+    type Uninit = ProbeUninit<T>;
+    type UninitRefMut<'a>
+        = &'a mut [MaybeUninit<T>]
+    where
+        T: 'a;
+
+    fn collect_from_iter<I: Iterator<Item = T>>(_iter: I) -> Self {
+        Probe { h0: 0, count: 0, trusted: false, _p: PhantomData }
+    }
+
+    fn uninit(_len: usize) -> Self::Uninit {
+        ProbeUninit(PhantomData)
+    }
+
+    fn uninit_ref_mut(_u: &mut Self::Uninit) -> Self::UninitRefMut<'_> {
+        &mut []
+    }
+
+    fn collect_from_trusted<I: TrustedLen<Item = T>>(mut it: I) -> Self {
+        let h0 = hint(&it);
+        assert!(h0 <= PROBE_CAP, "announced length is within the range expected for the parameters");
+        let mut h = h0;
+        let mut count = 0usize;
+        while count <= PROBE_CAP {
+            match it.next() {
+                Some(_) => {
+                    assert!(h >= 1, "an item is yielded only while the current hint is positive");
+                    let h2 = hint(&it);
+                    assert!(h2 + 1 == h, "the hint drops by exactly one with every yielded item");
+                    h = h2;
+                },
+                None => {
+                    assert!(h == 0, "the iterator is exhausted only when its current hint is zero");
+                    break;
+                },
+            }
+            count += 1;
+        }
+        assert!(count == h0, "front iteration yields exactly the announced number of items");
+        Probe { h0, count, trusted: true, _p: PhantomData }
+    }
+}
+
+/// integer range: start, end in -3..=3, step in {-2,-1,1,2}, direction of the step agrees with the
+/// direction of the span (the opposite direction is a C19 question: the count is then negative)
+pub fn gen_range_i32() -> bool {
+    let a = small_i32(-3, 3);
+    let b = small_i32(-3, 3);
+    let s = small_i32(-2, 2);
+    kani::assume(s != 0);
+    kani::assume((b - a) * s >= 0);
+    kani::cover!(s < 0 && a > b, "descending range");
+    kani::cover!(a == b, "empty range");
+    let p: Probe<i32> = Vec1Create::range(Some(a), b, Some(s));
+    assert!(p.trusted, "range is collected through the trusted path");
+    let v: Vec<i32> = Vec1Create::range(Some(a), b, Some(s));
+    assert!(v.len() == p.h0, "Vec::range has the announced length");
+    p.h0 >= 2
+}
+
+/// float range: small-integer end points, step in {±1/4, ±1/2, ±1, ±2}; a span against the
+/// direction of the step gives a negative count that the f64 -> usize cast saturates to 0
+pub fn gen_range_f64() -> bool {
+    let a = small_i32(-1, 1) as f64;
+    let b = small_i32(-1, 1) as f64;
+    let k = small_i32(-2, 2);
+    kani::assume(k != 0);
+    let quarter: bool = kani::any();
+    let s = if quarter { k as f64 / 4.0 } else { k as f64 };
+    kani::assume((b - a) / s <= 7.0);
+    kani::cover!(s < 0.0 && a < b, "step against the span");
+    let p: Probe<f64> = Vec1Create::range(Some(a), b, Some(s));
+    assert!(p.trusted, "range is collected through the trusted path");
+    let v: Vec<f64> = Vec1Create::range(Some(a), b, Some(s));
+    assert!(v.len() == p.h0, "Vec::range has the announced length");
+    p.h0 >= 2
+}
+
+pub fn gen_linspace_i32() -> bool {
+    let a = small_i32(-4, 4);
+    let b = small_i32(-4, 4);
+    let num = any_rem(4);
+    kani::cover!(num == 1, "single point");
+    let p: Probe<i32> = Vec1Create::linspace(Some(a), b, num);
+    assert!(p.trusted && p.h0 == num, "linspace announces the requested number of points");
+    let v: Vec<i32> = Vec1Create::linspace(Some(a), b, num);
+    assert!(v.len() == num, "Vec::linspace has the requested length");
+    num >= 2
+}
+
+pub fn gen_linspace_f64() -> bool {
+    let a = small_i32(-4, 4) as f64;
+    let b = small_i32(-4, 4) as f64;
+    let num = any_rem(4);
+    let p: Probe<f64> = Vec1Create::linspace(Some(a), b, num);
+    assert!(p.trusted && p.h0 == num, "linspace announces the requested number of points");
+    let v: Vec<f64> = Vec1Create::linspace(Some(a), b, num);
+    assert!(v.len() == num, "Vec::linspace has the requested length");
+    num >= 2
+}
+
+h!(c09_range_i32, 10, gen_range_i32());
+h!(c09_range_f64, 10, gen_range_f64());
+h!(c09_linspace_i32, 10, gen_linspace_i32());
+h!(c09_linspace_f64, 10, gen_linspace_f64());
+
+// ---------------------------------------------------------------------------------------------
+// 11. concrete depth-2 pipelines (sanity witnesses for the induction argument; thorough only)
+//     and winsorize itself
+// ---------------------------------------------------------------------------------------------
+
+pub fn pipe_vshift2<const N: usize>() -> bool {
+    let x: [Option<i32>; N] = kani::any();
+    let n1 = small_i32(-(N as i32) - 1, N as i32 + 1);
+    let n2 = small_i32(-(N as i32) - 1, N as i32 + 1);
+    let f1: Option<Option<i32>> = kani::any();
+    let f2: Option<Option<i32>> = kani::any();
+    observe(COLLECT | TOTAL, || x.titer().vshift(n1, f1).vshift(n2, f2), N + 1, Some(N));
+    n1 != 0 && n2 != 0
+}
+
+pub fn pipe_fill_vclip<const N: usize>() -> bool {
+    let x: [Option<i32>; N] = kani::any();
+    let d: Option<i32> = kani::any();
+    let lo: Option<i32> = kani::any();
+    let hi: Option<i32> = kani::any();
+    let n = small_i32(-(N as i32) - 1, N as i32 + 1);
+    observe(ALL, || x.titer().fill(d).vclip(lo, hi), N + 1, Some(N));
+    observe(COLLECT | TOTAL, || x.titer().ffill(None).vclip(lo, hi).vshift(n, None), N + 1, Some(N));
+    true
+}
+
+#[cfg(feature = "thorough")]
+pub fn winsorize_vec<const N: usize>() -> bool {
+    use tevec::map::{MapValidFinal, WinsorizeMethod};
+    let x: [i32; N] = small_arr();
+    let v = x.to_vec();
+    let m: u8 = kani::any();
+    kani::assume(m < 2);
+    let method = if m == 0 { WinsorizeMethod::Median } else { WinsorizeMethod::Sigma };
+    let q = small_i32(1, 3) as f64;
+    let ok = v.winsorize(method, Some(q)).is_ok();
+    if ok {
+        observe(
+            COLLECT | TOTAL,
+            || match v.winsorize(method, Some(q)) {
+                Ok(it) => it,
+                Err(_) => unreachable!(),
+            },
+            N + 1,
+            Some(N),
+        );
+    }
+    ok
+}
+
+h!(#[cfg(feature = "thorough")] c09_pipe_vshift_vshift_n2, 7, pipe_vshift2::<2>());
+h!(#[cfg(feature = "thorough")] c09_pipe_vshift_vshift_n3, 8, pipe_vshift2::<3>());
+h!(#[cfg(feature = "thorough")] c09_pipe_fill_vclip_n3, 8, pipe_fill_vclip::<3>());
+h!(#[cfg(feature = "thorough")] #[kani::stub(std::fmt::format, crate::util::fmt_stub)] c09_winsorize_n2, 8, winsorize_vec::<2>());
